@@ -191,6 +191,7 @@ public:
 
   std::vector<Event> events;
   std::vector<HeapObj> heap; // index = object id (0 unused)
+  std::map<ikos::index_t, int> made_by; // reference variable -> object of its last make_ref
   long steps = 0;
   EndReason end = EndReason::EXIT;
   std::string outside_why;
